@@ -528,7 +528,7 @@ func c05System(cfg c05Cfg) *bfs.System[W, lop] {
 		Check:    func(w W) (string, string) { return w.Check() },
 		Key:      func(w W) string { return w.Key() },
 		MaxDepth: cfg.depth,
-		Describe: func(w W) string { return w.Describe() },
+		Describe: func(w W) string { return w.Describe() }, Touch: func(w W) { w.Touch() },
 	}
 }
 
